@@ -1,13 +1,46 @@
 //! theta family: replays update / hook / trim / reset / compact / dump operations on the real
 //! `ThetaSketch` (see /verif/coq/theories/Corr/Theta.v for the operation and observation formats).
-use datasketches::common::ResizeFactor;
-use datasketches::theta::ThetaSketch;
+use datasketches::common::{NumStdDev, ResizeFactor};
+use datasketches::theta::{CompactThetaSketch, ThetaSketch};
 
-use crate::{fbits, Family, Ob, PANIC};
+use crate::{fbits, Family, Ob, ERR, PANIC};
 
 pub struct Fam {
     sk: ThetaSketch,
     theta0: u64,
+    seed: u64,
+    /// the compact slot: the last successfully deserialized compact sketch
+    slot: Option<CompactThetaSketch>,
+}
+
+/// dump of a compact sketch: [1; empty; ordered; theta; seed_hash; est bits; n; entries in stored order]
+fn dump_compact(c: &CompactThetaSketch) -> Ob {
+    let mut ob = vec![
+        1,
+        c.is_empty() as i128,
+        c.is_ordered() as i128,
+        c.theta64() as i128,
+        c.seed_hash() as i128,
+        fbits(c.estimate()),
+        c.num_retained() as i128,
+    ];
+    ob.extend(c.iter().map(|e| e as i128));
+    ob
+}
+
+/// every query of a compact sketch (a panic in any of them surfaces as the op's panic)
+fn query_compact(c: &CompactThetaSketch) {
+    let _ = c.theta();
+    let _ = c.is_estimation_mode();
+    for s in [NumStdDev::One, NumStdDev::Two, NumStdDev::Three] {
+        let lb = c.lower_bound(s);
+        let ub = c.upper_bound(s);
+        let _ = (lb, ub);
+    }
+}
+
+fn ser(c: &CompactThetaSketch, compressed: bool) -> Vec<u8> {
+    if compressed { c.serialize_compressed() } else { c.serialize() }
 }
 
 fn build(cfg: &[i128]) -> ThetaSketch {
@@ -40,7 +73,11 @@ impl Family for Fam {
     fn new(cfg: &[i128]) -> Self {
         let sk = build(cfg);
         let theta0 = sk.theta64();
-        Fam { sk, theta0 }
+        Fam { sk, theta0, seed: cfg[3] as u64, slot: None }
+    }
+
+    fn parse_len(&self, code: i64, a: &[i128]) -> Option<usize> {
+        if code == 12 { Some(a.len()) } else { None }
     }
 
     fn step(&mut self, code: i64, a: &[i128]) -> Ob {
@@ -122,6 +159,57 @@ impl Family for Fam {
                 let ordered = a[0] != 0;
                 if ordered || self.sk.theta64() == self.theta0 {
                     self.sk.compact(ordered).serialize().iter().map(|b| *b as i128).collect()
+                } else {
+                    vec![-1]
+                }
+            }
+            11 => {
+                let ordered = a[0] != 0;
+                if ordered || self.sk.theta64() == self.theta0 {
+                    self.sk.compact(ordered).serialize_compressed().iter().map(|b| *b as i128).collect()
+                } else {
+                    vec![-1]
+                }
+            }
+            12 => {
+                let bytes: Vec<u8> = a.iter().map(|b| *b as u8).collect();
+                self.slot = None;
+                match CompactThetaSketch::deserialize_with_seed(&bytes, self.seed) {
+                    Ok(c) => {
+                        query_compact(&c);
+                        let ob = dump_compact(&c);
+                        self.slot = Some(c);
+                        ob
+                    }
+                    Err(_) => vec![ERR],
+                }
+            }
+            13 => match &self.slot {
+                None => vec![-996],
+                Some(c) => ser(c, a[0] != 0).iter().map(|b| *b as i128).collect(),
+            },
+            14 => {
+                let ordered = a[0] != 0;
+                let compressed = a[1] != 0;
+                self.slot = None;
+                if ordered || self.sk.theta64() == self.theta0 {
+                    let c = self.sk.compact(ordered);
+                    let b = ser(&c, compressed);
+                    match CompactThetaSketch::deserialize_with_seed(&b, self.seed) {
+                        Ok(d) => {
+                            query_compact(&d);
+                            let dc = dump_compact(&c);
+                            let mut ob = vec![dc.len() as i128];
+                            ob.extend(dc);
+                            ob.extend(dump_compact(&d));
+                            ob.extend(ser(&d, compressed).iter().map(|x| *x as i128));
+                            ob.push(-2);
+                            ob.extend(b.iter().map(|x| *x as i128));
+                            self.slot = Some(d);
+                            ob
+                        }
+                        Err(_) => vec![ERR],
+                    }
                 } else {
                     vec![-1]
                 }
